@@ -14,6 +14,18 @@ CHECKS = {
         technique="Coq proof (induction over version history) + model/implementation correspondence in vm_compute"),
 }
 
+CHECKS["C02"] = dict(
+    text="Coq theorem C02_agree (Props/C02.v, closed under the global context): for EVERY declaration of the modelled "
+         "field vocabulary (any nesting, by structural induction with the strong induction principle) and every value in "
+         "the statement's domain, the code-shaped model of the __set__ chains accepts exactly when the documented rules "
+         "(Fields/Doc.v, transcribed from the docstrings) do, with the same normal form, and every rejection is a "
+         "TypeError/ValueError. The model is tied to typedpy by differential correspondence evaluated in Coq, and the "
+         "documented rules are evaluated on the implementation's observed behaviour to find replays.",
+    design="DESIGN.md §6 C02",
+    note="Trusted: Coq kernel + vm_compute; hand-written model Fields/SetChain.v and spec Fields/Doc.v; re.match as an oracle; "
+         "float(int) exact only for |z|<=2^53; Decimal/date fields, StructureReference, EnumString not yet in the model.",
+    technique="Coq proof (structural induction over field declarations) + model/implementation correspondence in vm_compute")
+
 PENDING = {}
 
 def main():
